@@ -177,6 +177,14 @@ func (cb *CellBuffer) LockCell(x, y int) {
 	c.lock = true
 }
 
+// locked reports whether the cell is in range and locked.
+func (cb *CellBuffer) locked(x, y int) bool {
+	if x < 0 || y < 0 || x >= cb.w || y >= cb.h {
+		return false
+	}
+	return cb.cells[(y*cb.w)+x].lock
+}
+
 // UnlockCell removes a lock from the cell and marks it as dirty
 func (cb *CellBuffer) UnlockCell(x, y int) {
 	if x < 0 || y < 0 {
